@@ -686,7 +686,10 @@ def stack_rules(ctx: Ctx, fi, loop, out: str) -> None:
         if stacks and len({src(call_method(n.value)[0]) for n in stacks.values()}) != 1:
             stacks = {}
     if not stacks or (len(stacks) != 1 and any(call_method(n.value)[1] == "get" and len(n.value.args) == 2 for n in stacks.values())):
+        # the keep / skip decisions of notes are the heart of the property: when the bookkeeping is not a stack per (channel, pitch) in a
+        # form read here (another data structure, counters, ...) nothing about notes is decided -- outside the model, not a pass
         ctx.undetermined("STACK", f"{FN}: open-note stack", f"stack variable not recognised ({sorted(stacks)}): not judged")
+        ctx.floor(f"{FN}: open-note stack per (channel, pitch) in a recognised form", 0, 1)
         return
     stack = next(iter(stacks)) if len(stacks) == 1 else set(stacks)
     want = {("NOTE_ON", 0): "keep", ("NOTE_ON", 1): "skip", ("NOTE_ON", 2): "skip",
